@@ -40,9 +40,11 @@ def c04_a(ctx: Ctx):
     # the try whose body renames the job directory (os.replace whose source is not the state point file and target not '~')
     tries = []
     pm = ctx.parents(fi)
+    helper_of = {}
     for c in body_nodes(fi):
-        if isinstance(c, ast.Call) and common.ext_name(ctx, fi, c) in ("os.replace", "os.rename") and len(c.args) >= 2 \
-                and not _is_tilde(ctx, fi, c.args[1]) and not _is_tilde(ctx, fi, c.args[0]) and canon(c.args[0]) != "self.filename":
+        rc = common.rename_call(ctx, fi, c)
+        if rc is not None and not _is_tilde(ctx, fi, rc[1]) and not _is_tilde(ctx, fi, rc[0]) and canon(rc[0]) != "self.filename":
+            helper_of[id(c)] = rc[2]
             cur = pm.get(id(c))
             while cur is not None:
                 if isinstance(cur, ast.Try) and common.in_body_of(ctx, fi, c, cur, ("body",)):
@@ -58,10 +60,23 @@ def c04_a(ctx: Ctx):
                 if isinstance(c, ast.Call) and common.ext_name(ctx, fi, c) in ("os.replace", "os.rename") and len(c.args) >= 2 \
                         and _is_tilde(ctx, fi, c.args[0]) and canon(c.args[1]) in ("self.filename", "self._filename"):
                     rollback.add(n.id)
+    exf = ExcFacts(ctx)
     for tr, call in tries:
         if not tr.handlers:
             out.append(ctx.viol(R, fi, tr, "the directory rename has no handler: a failure leaves the state point parked as '~'"))
             continue
+        g = helper_of.get(id(call))
+        if g is not None:
+            # the rename is done by a helper: whatever the helper raises of its own must reach the roll-back too
+            caught = [t for h in tr.handlers for t in exf.handler_type_names(fi, h)]
+            missed = sorted(e for e in exf.raised(g) if not exf.catches(caught, e))
+            kh = f"{fi.qual}|rollback-covers-helper"
+            if missed:
+                out.append(ctx.viol(R, fi, tr, f"the directory rename is done by {g.name}(), which can raise {', '.join(m.split(':')[-1] for m in missed)}; the handler that restores the state point "
+                                    f"file catches only {[t.split(':')[-1] for t in caught]}: for that error the '~' backup is never renamed back, and a retry on the same handle takes the "
+                                    "'job not initialised' branch and switches the id in memory only", construct=kh))
+            else:
+                out.append(ctx.ok(R, fi, tr, f"every error {g.name}() raises is caught by the roll-back handler", construct=kh))
         for h in tr.handlers:
             for hid in cfg.node_ids_for(h):
                 w = cfg.must_pass_after(hid, rollback, exits={cfg.rexit, cfg.exit}, kinds="nx")
@@ -102,9 +117,9 @@ def c04_b(ctx: Ctx):
     ex = ExcFacts(ctx)
     # (function, predicate on call, required errno set, description)
     sites = [
-        (SAVE, lambda fi, c: common.ext_name(ctx, fi, c) in ("os.replace", "os.rename") and len(c.args) >= 2 and not _is_tilde(ctx, fi, c.args[1])
-            and not _is_tilde(ctx, fi, c.args[0]) and canon(c.args[0]) != "self.filename", {"EEXIST", "ENOTEMPTY"}, "rename of the job directory"),
-        (MOVE, lambda fi, c: common.ext_name(ctx, fi, c) in ("os.replace", "os.rename"), {"EEXIST", "ENOTEMPTY"}, "rename of the job directory"),
+        (SAVE, lambda fi, c: common.rename_call(ctx, fi, c) is not None and not _is_tilde(ctx, fi, common.rename_call(ctx, fi, c)[1])
+            and not _is_tilde(ctx, fi, common.rename_call(ctx, fi, c)[0]) and canon(common.rename_call(ctx, fi, c)[0]) != "self.filename", {"EEXIST", "ENOTEMPTY"}, "rename of the job directory"),
+        (MOVE, lambda fi, c: common.rename_call(ctx, fi, c) is not None, {"EEXIST", "ENOTEMPTY"}, "rename of the job directory"),
         (CLONE, lambda fi, c: isinstance(c.func, ast.Name) and c.func.id == "copytree", {"EEXIST"}, "copytree into the new job directory"),
         (IMPORT_COPY, lambda fi, c: isinstance(c.func, ast.Name) and c.func.id == "copytree", {"EEXIST"}, "copytree into the new job directory"),
     ]
@@ -115,7 +130,24 @@ def c04_b(ctx: Ctx):
         if not calls:
             out.append(ctx.inc(R, fi, fi.node, f"{desc}: primitive call not found"))
             continue
+        q0, fi0 = q, fi
         for c in calls:
+            q, fi, pm = q0, fi0, ctx.parents(fi0)
+            rc = common.rename_call(ctx, fi, c) if q in (SAVE, MOVE) else None
+            if rc is not None and rc[2] is not None:
+                # the rename and its error mapping live in a helper: analyse the mapping there
+                g = rc[2]
+                inner = [x for x in body_nodes(g) if isinstance(x, ast.Call) and common.ext_name(ctx, g, x) in ("os.replace", "os.rename")]
+                pg = ctx.parents(g)
+                def _in_try(x):
+                    cur0 = pg.get(id(x))
+                    while cur0 is not None:
+                        if isinstance(cur0, ast.Try):
+                            return True
+                        cur0 = pg.get(id(cur0))
+                    return False
+                if inner and _in_try(inner[0]):
+                    fi, c, pm = g, inner[0], pg
             cur = pm.get(id(c))
             tr = None
             while cur is not None:
@@ -283,6 +315,10 @@ def c04_d(ctx: Ctx):
             tg = a.targets[0] if isinstance(a, ast.Assign) and len(a.targets) == 1 else None
             per_key = isinstance(tg, ast.Subscript) and canon(tg.value) in live
             in_loop = any(isinstance(p, (ast.For, ast.While)) for p in _ancestors(ctx, fi, a))
+            bulk = [c for c in walk_no_nested(a) if isinstance(c, ast.Call) and isinstance(c.func, ast.Attribute) and c.func.attr in ("update", "setdefault") and canon(c.func.value) in live]
+            if bulk:
+                return [ctx.viol(R, fi, a, f"update_statepoint applies `{canon(bulk[0])[:50]}` to the live state point: the collection saves (and re-keys the job) when the call is left even if a "
+                                 "later key of the same update was rejected (invalid key / value), so a refused update has already migrated the job to a half-updated state point")]
             if per_key and in_loop:
                 return [ctx.viol(R, fi, a, f"update_statepoint writes the live state point key by key ({canon(tg)} = ...): every assignment re-keys (moves) the job on its own, so a "
                                  "conflict or a refused move at a later key leaves the job renamed by the earlier keys - the update is not all-or-nothing")]
@@ -331,6 +367,18 @@ def c04_d(ctx: Ctx):
                             "a rejected update_statepoint has re-keyed the job (and intermediate state points can collide with other jobs)"))
     elif muts and raises:
         out.append(ctx.ok(R, fi, muts[0].ast, "the state point is assigned once, after every key has been checked"))
+    upd_par = [p for p in fi.params if p not in ("self", "overwrite")]
+    up = upd_par[0] if upd_par else "update"
+    for n, x in loops:
+        it = common.inline_at(ctx, fi, n.ast.iter, n.ast)
+        kspace = fi.qual + "|check-key-space"
+        if canon(it).replace(" ", "") in (f"{up}.items()", f"{up}", f"{up}.keys()"):
+            out.append(ctx.ok(R, fi, n.ast, f"the conflict check ranges over the top-level keys of `{up}`, the keys the merge assigns", construct=kspace))
+        elif any(isinstance(c, ast.Call) and any("_nested_dicts_to_dotted_keys" in q or "flatten" in q for q in common.targets_of(ctx, fi, c)) for c in ast.walk(it)):
+            out.append(ctx.viol(R, fi, n.ast, f"the conflict check ranges over the flattened (dotted) leaves of `{up}` while the merge replaces whole top-level values: a nested mapping with fewer "
+                                "keys, a scalar replacing a mapping or a mapping replacing a scalar passes the check, so existing keys are dropped or altered without KeyError", construct=kspace))
+        else:
+            out.append(ctx.inc(R, fi, n.ast, f"the conflict check iterates {canon(it)[:50]}", construct=kspace))
     for n, x in loops:
         shape = _presence_test_shape(ctx, fi, x.test, env)
         if shape == "ok":
@@ -508,4 +556,19 @@ def c04_i(ctx: Ctx):
     return swapped_arguments(ctx, "C04-i", ['signac.job', 'signac.project']) + pure_logging(ctx, "C04-i", ['signac.job'])
 
 
-RULES = [c04_a, c04_b, c04_c, c04_d, c04_e, c04_f, c04_g, c04_h, c04_i]
+@rule("C04-j")
+def c04_j(ctx: Ctx):
+    """clone() copies the whole job directory: no ignore= filter (neither at the call nor baked into the default copy function)."""
+    R = "C04-j"
+    f = ctx.fn(CLONE)
+    ign = [c for c in body_nodes(f) if isinstance(c, ast.Call) and kwarg(c, "ignore") is not None and ctx.fold(kwarg(c, "ignore"), f) is not None]
+    pats = [c for c in body_nodes(f) if isinstance(c, ast.Call) and common.ext_name(ctx, f, c) == "shutil.ignore_patterns"]
+    k = CLONE + "|copies-everything"
+    if ign or pats:
+        c = (ign or pats)[0]
+        return [ctx.viol(R, f, c, f"Project.clone filters what it copies ({canon(c)[:60]}): payload files whose names match the pattern are silently left out of the clone (and of every job a "
+                         "project sync clones; a second sync then copies them, so repeating the sync changes the destination)", construct=k)]
+    return [ctx.ok(R, f, f.node, "Project.clone passes no ignore filter to the copy function", construct=k)]
+
+
+RULES = [c04_a, c04_b, c04_c, c04_d, c04_e, c04_f, c04_g, c04_h, c04_i, c04_j]
